@@ -64,6 +64,13 @@ CLAIMED = {
                 "table {shared_formulas: R1C1/default, DefinedName.formula: A1/default} is the repo's own documented convention. " + TRUST,
         "technique": "typestate dataflow over the CFG (set_* transitions) + provenance of parse arguments + effect summaries",
     },
+    "C16": {
+        "level": "Exhaustive static decision for the cut/paste printer to_string_moved: the same 581 PAREN cells as C09 against the "
+                 "parser grammar, and the separator/array-nesting tables of both printers against the tokens the parser expects "
+                 "per decimal separator.",
+        "note": "Retargeting arithmetic of moved references is not decided. " + TRUST,
+        "technique": "reaching-definitions grammar vs path-interpreted printer; interpreted separator choices vs parser token tables",
+    },
     "C17": {
         "level": "Static decision of the rename rewrite's shape: stores of the new name are control-dependent on an index "
                  "comparison; the walker recurses into every child-bearing Node variant.",
